@@ -110,8 +110,10 @@ def scenarios(ctx, behs):
     ntlc, nrand = (140, 260) if ctx.quick() else (1500, 3000)
     tl, tlc_distinct = ru.tlc_scenarios(behs, ctx.seed, ntlc)
     rd = ru.random_scenarios(ctx.seed, nrand)
-    scs = shapes + tl + rd
-    mix = {"tcp": {"shape": len(shapes), "tlc": len(tl), "tlc_distinct_scripts": tlc_distinct, "random": len(rd)}}
+    fl = ru.flood_scenarios(ctx.seed)
+    scs = shapes + fl + tl + rd
+    mix = {"tcp": {"shape": len(shapes), "flood_over_event_channel_capacity": len(fl), "tlc": len(tl),
+                   "tlc_distinct_scripts": tlc_distinct, "random": len(rd)}}
     for tr in ("ws", "quic"):
         sh, skipped = ru.on_transport(shapes if not ctx.quick() else [s for s in shapes if s["perturb"] == 0], tr)
         ntlc2, nrand2 = (30, 50) if ctx.quick() else (400, 800)
